@@ -90,7 +90,7 @@ def impl_nodes_used(n, outcomes, kinds=None, mutate=None, forms=None):
 
 def run(ctx):
     ctx.prepare_lean(extract.generate(PROP))
-    ctx.extra['rule'] = ('node counts 1..4 x success/error sequences (exhaustive up to a length, then random longer ones); failing requests raise RpcError, '
+    ctx.extra['rule'] = ('node counts 1..4 x success/error sequences (exhaustive up to a length, then random longer ones; histories of 255..1025 requests (thorough: ..65537) for 1..5 and 7 nodes); failing requests raise RpcError, '
                          'requests ConnectionError / ReadTimeout or RuntimeError (drawn per request in two thirds of the cases); half of the cases issue requests through get/post/put/delete and with stream= / timeout= / params= / json= keywords; '
                          'non-trivial = contains at least one error and n >= 2')
     max_len = 7 if ctx.tier == 'quick' else 11
@@ -104,6 +104,12 @@ def run(ctx):
         ln = ctx.rng.randrange(max_len + 1, 60)
         p = ctx.rng.random()
         cases.append((n, [1 if ctx.rng.random() < p else 0 for _ in range(ln)]))
+    # long-lived clients: histories around the counter widths a rotation cursor might be kept in (8 / 9 / 10 / 16 bits), node counts
+    # that do and do not divide 2^k
+    for n in (1, 2, 3, 4, 5, 7):
+        for ln in ([255, 256, 257, 258, 513, 1025] if ctx.tier == 'quick' else [255, 256, 257, 258, 511, 513, 1023, 1025, 4097, 65537]):
+            p = ctx.rng.choice([1.0, 0.9, 0.5])
+            cases.append((n, [1 if ctx.rng.random() < p else 0 for _ in range(ln)]))
     ctx.extra['exhaustive_upto_len'] = max_len
     lines = [' '.join(map(str, [n, *os_])) for n, os_ in cases]
     model = ctx.model(lines)
@@ -124,6 +130,7 @@ def run(ctx):
             if not o:
                 ctx.count('failure_kind', FAILURE_KINDS[k])
         ctx.count('n', n)
+        ctx.count('length', len(os_) if len(os_) <= max_len else ('<60' if len(os_) < 60 else '>=255'))
         ctx.count('errors', min(os_.count(0), 5))
         want = [i % n for i in range(len(os_))]
         if used != want:
